@@ -147,7 +147,9 @@ def _public_attrs(prog: Program, fam: List[ClassInfo]) -> Set[str]:
 def a1(prog: Program, chk: Check) -> None:
     chk.rule("A1", "a method memoised with lru_cache (key = self identity + arguments) must not "
              "read, transitively through self methods and closures stored on self, an attribute "
-             "that is publicly writable: changing it leaves stale results in the cache", floor=4)
+             "that is publicly writable: changing it leaves stale results in the cache "
+             "(hand-written memos are covered by A7, whose positive example keeps both alive)",
+             floor=0)
     n = 0
     for ci in prog.classes.values():
         for mname, mu in ci.methods.items():
@@ -196,13 +198,14 @@ def a1(prog: Program, chk: Check) -> None:
                     f"after assigning a new value to {stale} the memoised results are stale: "
                     f"e.g. correlation() follows the new value, the cached 2D integrals do not",
                     function=f"{ci.name}.{mname}")
-    if n < 4:
-        raise AnalysisError(f"A1: only {n} lru_cache methods found (floor 4)")
+    chk.extra["a1_memoised_methods"] = n
 
 
 # --------------------------------------------------------------------- A7
 def _a7_unit(u: Unit):
-    """[(store stmt, attr, key expr, covered, missing)] for hand-written memos in u."""
+    """[(store stmt, attr, key expr, covered, missing)] for hand-written memos in u:
+    a dict attribute that is looked up (`.get(K)`, `[K]`, `K in`) and stored
+    (`self.A[K] = V`) in the same function, which returns the cached / stored value."""
     from oqv.dataflow import depends_on
     out = []
     stores = []
@@ -219,34 +222,75 @@ def _a7_unit(u: Unit):
     du = DefUse(u, CFG(u.node, exc_edges=False))
     params = [p for p in u.params if p not in ("self", "cls")]
     for (st, attr) in stores:
-        lookups = [d for d in du.defs if d.value is not None and not d.sel
-                   and attr in norm(d.value) and (
-                       (isinstance(d.value, ast.Call) and isinstance(d.value.func, ast.Attribute)
-                        and d.value.func.attr == "get") or isinstance(d.value, ast.Subscript))]
-        if not lookups:
+        lookups_ok = False
+        lookup_names = set()
+        tests = []
+        for x in walk_local(u.node):
+            if x is st or any(y is x for y in ast.walk(st)):
+                continue
+            if isinstance(x, ast.Call) and isinstance(x.func, ast.Attribute) and \
+                    x.func.attr == "get" and attr == dotted(x.func.value):
+                lookups_ok = True
+            if isinstance(x, ast.Subscript) and isinstance(x.ctx, ast.Load) and \
+                    dotted(x.value) == attr:
+                lookups_ok = True
+            if isinstance(x, ast.Compare) and any(isinstance(o, (ast.In, ast.NotIn)) for o in x.ops) \
+                    and any(dotted(c) == attr for c in x.comparators):
+                lookups_ok = True
+                tests.append(x)
+        if not lookups_ok:
             continue
-        lk = lookups[0]
-        ctx = branch_context(u.node, st)
-        miss_tests = [t for (t, br) in ctx if br and any(
-            isinstance(x, ast.Name) and x.id == lk.name for x in ast.walk(t))]
-        rets = [x for x in walk_local(u.node) if isinstance(x, ast.Return) and x.value is not None
-                and any(isinstance(y, ast.Name) and y.id == lk.name for y in ast.walk(x.value))]
-        if not miss_tests or not rets:
+        for d in du.defs:
+            if d.value is not None and not d.sel and attr in norm(d.value) and \
+                    not isinstance(d.value, (ast.FunctionDef, ast.Lambda)):
+                lookup_names.add(d.name)
+        # the function hands the memoised value back
+        rets = [x for x in walk_local(u.node) if isinstance(x, ast.Return) and x.value is not None]
+        returns_memo = any(attr in norm(r.value) or any(
+            isinstance(y, ast.Name) and y.id in lookup_names for y in ast.walk(r.value))
+            or norm(r.value) == norm(st.value) for r in rets)
+        if not returns_memo:
+            continue
+        # accumulation (slot' = f(slot)) is not a memo
+        if attr in norm(st.value) and not lookup_names:
             continue
         nid = du.node_of(st.value)
         key_expr = st.targets[0].slice
+        ctx = branch_context(u.node, st)
+        miss_tests = [t for (t, br) in ctx] + tests
         covered = set()
         for p_ in params:
             if depends_on(du, key_expr, nid, {p_}):
                 covered.add(p_)
             for t in miss_tests:
                 for cmp_ in ast.walk(t):
-                    if isinstance(cmp_, ast.Compare) and any(
+                    if isinstance(cmp_, ast.Compare) and not any(
+                            isinstance(o, (ast.In, ast.NotIn)) for o in cmp_.ops) and any(
                             isinstance(y, ast.Name) and y.id == p_ for y in ast.walk(cmp_)) \
-                            and any(isinstance(y, ast.Name) and y.id == lk.name
+                            and any(isinstance(y, ast.Name) and y.id in lookup_names
                                     for y in ast.walk(cmp_)):
                         covered.add(p_)
         needed = {p_ for p_ in params if depends_on(du, st.value, nid, {p_})}
+        # control dependence: parameters tested on the way to a definition the value uses
+        closure_stmts = []
+        seen_defs = set()
+        work = [(nid, st.value)]
+        while work:
+            at, e = work.pop()
+            for x in ast.walk(e):
+                if isinstance(x, ast.Name) and isinstance(x.ctx, ast.Load):
+                    for d in du.reaching(at, x.id):
+                        if d.id in seen_defs or d.value is None:
+                            continue
+                        seen_defs.add(d.id)
+                        if d.stmt is not None:
+                            closure_stmts.append(d.stmt)
+                        work.append((d.node, d.value))
+        for cs in closure_stmts:
+            for (t, br) in branch_context(u.node, cs):
+                for y in ast.walk(t):
+                    if isinstance(y, ast.Name) and y.id in params:
+                        needed.add(y.id)
         out.append((st, attr, key_expr, sorted(covered), sorted(needed - covered)))
     return out
 
@@ -616,6 +660,14 @@ def _alias_kind(prog: Program, u: Unit, du: DefUse, nid: int, e: ast.AST, params
     if isinstance(e, ast.Attribute) and e.attr == "T":
         r = _alias_kind(prog, u, du, nid, e.value, params, depth + 1)
         return ("view", r[1]) if r else None
+    if isinstance(e, ast.Attribute) and dotted(e) and dotted(e).startswith("self.") \
+            and dotted(e).count(".") == 1:
+        ci_ = prog.class_of_unit(u)
+        for c_ in (prog.mro(ci_) if ci_ else []):
+            al = _ATTR_ALIAS.get((c_.module.short, c_.name), {}).get(e.attr)
+            if al is not None:
+                return (al[0], f"{c_.name}.__init__:{al[1]}")
+        return None
     if isinstance(e, ast.Subscript):
         r = _alias_kind(prog, u, du, nid, e.value, params, depth + 1)
         return ("view", r[1]) if r else None
@@ -635,6 +687,37 @@ def _alias_kind(prog: Program, u: Unit, du: DefUse, nid: int, e: ast.AST, params
         return _alias_kind(prog, u, du, nid, e.body, params, depth + 1) or \
             _alias_kind(prog, u, du, nid, e.orelse, params, depth + 1)
     return None
+
+
+_ATTR_ALIAS: Dict[Tuple[str, Optional[str]], Dict[str, Tuple[str, str]]] = {}
+
+
+def _build_attr_aliases(prog: Program) -> None:
+    """self.<attr> that keeps a reference to (or a view of) a constructor argument and is
+    never re-bound to a copy in the constructor."""
+    _ATTR_ALIAS.clear()
+    for ci in prog.classes.values():
+        init = ci.methods.get("__init__")
+        if init is None:
+            continue
+        params = {p for p in init.params if p != "self"}
+        if not params:
+            continue
+        du = DefUse(init, CFG(init.node, exc_edges=False))
+        table: Dict[str, Tuple[str, str]] = {}
+        for n in du.cfg.nodes:
+            if n.kind == "stmt" and isinstance(n.ast, ast.Assign):
+                for t in n.ast.targets:
+                    d = dotted(t)
+                    if d and d.startswith("self.") and d.count(".") == 1:
+                        al = _alias_kind(prog, init, du, n.id, n.ast.value, params)
+                        if al is not None:
+                            table[d[5:]] = al
+                        else:
+                            table.pop(d[5:], None)
+        # attributes re-bound in other methods to something else are still aliases at first
+        if table:
+            _ATTR_ALIAS[(ci.module.short, ci.name)] = table
 
 
 def _writes_in(u: Unit) -> List[Tuple[ast.AST, ast.AST, str]]:
@@ -663,6 +746,10 @@ def _writes_in(u: Unit) -> List[Tuple[ast.AST, ast.AST, str]]:
                     out.append((x, k.value, "data"))
             fn = dotted(x.func) or ""
             if fn.split(".")[-1] in ("copyto", "put", "place", "putmask", "fill_diagonal") and x.args:
+                out.append((x, x.args[0], "data"))
+            if fn.split(".")[-1] in ("nan_to_num",) and x.args and any(
+                    k.arg == "copy" and isinstance(k.value, ast.Constant) and k.value.value is False
+                    for k in x.keywords):
                 out.append((x, x.args[0], "data"))
     return out
 
@@ -727,6 +814,10 @@ def a5(prog: Program, chk: Check) -> None:
              "store, augmented assignment, sort/fill/resize/put, out=; metadata writes .shape= / "
              "setflags only count on the parameter object itself)", floor=40)
     entry = _entry_points(prog)
+    _build_attr_aliases(prog)
+    chk.extra["a5_attributes_aliasing_constructor_arguments"] = {
+        f"{k[0]}:{k[1]}": {a_: f"{v[0]} of {v[1]}" for a_, v in t.items()}
+        for k, t in sorted(_ATTR_ALIAS.items(), key=lambda kv: str(kv[0]))}
     funcs = [u for u in prog.units.values() if not isinstance(u.node, ast.Lambda)]
     dus: Dict[str, DefUse] = {}
 
@@ -739,7 +830,7 @@ def a5(prog: Program, chk: Check) -> None:
     n_writes = 0
     for u in funcs:
         params = {p for p in u.params if p not in ("self", "cls")}
-        if not params:
+        if not params and not u.cls:
             continue
         writes = _writes_in(u)
         if not writes:
@@ -820,7 +911,7 @@ def a5(prog: Program, chk: Check) -> None:
     for q in sorted(entry):
         u = prog.units[q]
         params = [p for p in u.params if p not in ("self", "cls")]
-        if not params:
+        if not params and q not in mutated:
             continue
         n_entry += 1
         chk.saw(u)
